@@ -22,29 +22,6 @@ Definition be h r := {| b_host := h; b_rw := r |}.
 Definition rl i s r b := {| r_id := i; r_setting := s; r_routes := r; r_backend := b |}.
 Definition hu s h p rp q := {| u_scheme := s; u_host := h; u_path := p; u_rawpath := rp; u_query := q |}.
 
-(** RFC 3986 §6.2.2 normal form: escapes of unreserved octets decoded, hex digits
-    of the others in upper case.  Two well-formed paths are equivalent
-    re-encodings of each other iff their normal forms are equal. *)
-Fixpoint norm (s : string) : string :=
-  match s with
-  | EmptyString => EmptyString
-  | String c r =>
-    match r with
-    | String a (String b r') =>
-      if Ascii.eqb c "%" && ishex a && ishex b then
-        let v := hexbyte a b in
-        if unreserved v then String v (norm r')
-        else String "%" (String (hexdig (unhex a)) (String (hexdig (unhex b)) (norm r')))
-      else String c (norm r)
-    | _ => String c (norm r)
-    end
-  end.
-
-Definition wellformed (s : string) : bool := match unescape s with Some _ => true | None => false end.
-
-Definition equiv_paths (a b : string) : bool :=
-  wellformed a && wellformed b && String.eqb (norm a) (norm b).
-
 (** ** the property on the implementation's observation (vocabulary of C08/Spec.v) *)
 
 (** the model's answer and the request line of its upstream URL against the observation *)
